@@ -14,16 +14,21 @@ CHECKS = {
             "For every state within k edits of the seeds and every older version the code distinguishes (composeinfo 0.0/0.2/0.3/0.4/"
             "0.9/1.0/1.1, images 1.0/1.1, rpms 0.3/1.0/1.1, treeinfo 0.3/1.0/1.1) a down-converter written from the format documentation "
             "produces the older document; every accepted document must expose the expected facts, be written as a current-version file "
-            "with the proper type, re-load to an identical observation and re-dump byte-identically; plus all 73 fixtures under tests/.",
+            "with the proper type, re-load to an identical observation and re-dump byte-identically; dialects (repodata spelling, absolute "
+            "roots, images-<platform>-<arch> sections, children under 'variants', a stray base_product section); all 73 fixtures under "
+            "tests/ must in addition convert to the facts recorded from the repaired pinned tree (golden/c05_fixtures.json); a listed "
+            "format version of which no generated document is accepted any more is a violation.",
             "Trusts mc/models/legacy.py; rejections and inexpressible shapes are counted per (format, version) and a version without any "
-            "accepted document fails the run as vacuous; generated 0.0 treeinfos are covered via C17, here 0.0 comes from fixtures.",
+            "accepted document is reported; a single rejected document is outside the property; the per-product rules of the "
+            "pre-productmd reader (RHEL 3-6, CentOS) are outside the alphabet.",
             "DESIGN.md section 5, C05"),
     "C06": ("exploration",
             "bounded-exhaustive single corruption of valid objects: base x every field position x every value of the field's corruption alphabet, against a reference validator table; converse over the k=1 universes",
             "Every (base object, field position, out-of-domain value) triple - all variants of a forest incl. layered-product releases, "
             "all 15 attributes of every image in every cell, all treeinfo sections, discinfo - must make dumps() raise TypeError/"
             "ValueError; conversely every state within one edit of the composeinfo/images/treeinfo seeds and every documented tree arch "
-            "must be written.",
+            "must be written; valid non-ASCII objects must be written under an ASCII locale (all formats to a string, the JSON formats "
+            "to a path); thorough: every state within one edit of every seed is a base object.",
             "Trusts mc/models/validator_table.py (transcribed from doc/ and the property text); exactly one corrupted field per object.",
             "DESIGN.md section 5, C06"),
     "C07": ("exploration",
@@ -49,7 +54,8 @@ CHECKS = {
             "DESIGN.md section 5, C08"),
     "C16": ("exploration",
             "grid of file sizes around the 1 MiB chunk x every hashlib algorithm x read schedules (one short read at every read index through a shadowed open) against hashlib one-shot digests; all ordered [checksums] sections over 9 value shapes; all add_checksum histories of depth <= 4",
-            "compute_checksum must equal the one-shot digest for every size/algorithm/read schedule; Checksums.add must record under the "
+            "compute_checksum must equal the one-shot digest for every size/algorithm/read schedule, each time after the same path held "
+            "other content of the same size and mtime and after another file was hashed; Checksums.add must record under the "
             "normalised relative path and refuse absolute paths; every [checksums] section of <= 2 (quick) / 3 (thorough) entries must map "
             "each path to its own line's type and value or be rejected; over all 4 680 add_checksum histories a recorded value never changes "
             "and a conflicting value raises ValueError.",
@@ -157,7 +163,8 @@ CHECKS = {
             "differ in exactly one identity attribute), dumps and reload, from 5 initial header versions, is replayed on a fresh "
             "real object and compared with the model after every step (acceptance, ValueError, unchanged manifest and cells); header "
             "version changes and document loads are operations of the history, too; "
-            "every source state is also written as a 1.0/1.1/1.2 document; identify_image(object) == identify_image(dict).",
+            "every source state is also written as a 1.0/1.1/1.2 document; identify_image(object) == identify_image(dict), also after "
+            "each identity attribute of an already identified and filed image was changed.",
             "Trusts the 20-line model in mc/checks/c09.py; scope reading of 'format 1.1 or later' per DESIGN.md section 4.",
             "DESIGN.md section 5, C09"),
     "C10": ("model_checking",
